@@ -396,6 +396,10 @@ def judge_c04(drv, lines, desc, i):
     want = val % 65536
     if pos == "equ":
         got = dict(i[5]).get("R")
+        # the symbol table renders a negative constant in two's complement at the width of its rendering:
+        # -3 is listed as FFFD or as FD (both are -3; uses of R are judged by the other positions)
+        if got not in (None, "") and -128 <= val < 0 and len(got) <= 2 and int(got, 16) == val % 256:
+            return None
         return None if got not in (None, "") and int(got, 16) == want else "%s: R = %s, expression value is $%X" % (src, got, want)
     if pos in ("fcb", "fdb"):
         w = 2 if pos == "fcb" else 4
